@@ -76,6 +76,11 @@ def run(tier, corrupt=False):
                         break
                     for r, o in zip(kept[b0:b0 + BATCH], results):
                         n += 1
+                        if o.get("timeout"):
+                            # "the generated deserializer terminates" (the model does: PTerminates); 20 s for a few bytes is not a matter of load
+                            v.violation(f"{r['prog']} data={r['data']} chunked0={r['ch0']} does not terminate", "deserialize did not return within 20 s (or an earlier input of this program did not); the reading rules terminate",
+                                        {"prog": r["prog"], "data": r["data"], "ch0": r["ch0"]})
+                            continue
                         if "harness_error" in o:
                             raise MachineryError(o["harness_error"])
                         if corrupt and n == 77:
@@ -118,6 +123,9 @@ def run(tier, corrupt=False):
                         nbound += 1
                         continue
                     nv += 1
+                    if o.get("timeout"):
+                        v.violation(f"{progs[c['p'] - 1]['name']} (random) data={c['data']} does not terminate", "deserialize did not return within 20 s; the reading rules terminate", {"prog": progs[c["p"] - 1]["name"], "data": c["data"]})
+                        continue
                     if "harness_error" in o:
                         raise MachineryError(o["harness_error"])
                     prog = progs[c["p"] - 1]["name"]
